@@ -368,8 +368,10 @@ func runTorsion(c *mc.Ctx, keys []keyT, alphas []named) {
 			w.Fail("ecvrf.Verify"+apiFor(f).name+"/uniqueness", fmt.Sprintf("%s %s %s: accepted proof %x with Gamma+T%d under key Y+T%d yields beta %x, the torsion-free proof yields %x", k.desc, al.desc, f, pi, tg, ta, libBeta, beta0), caseMap(f, pkStr, pi, al.b, extra...))
 		}
 		checkProofToHash(w, fmt.Sprintf("torsion/accepted/gamma+T%d", tg), pi)
-		// the other format must not accept it
-		checkVerify(w, "torsion/cross-format", other(f), pkStr, pi, al.b, extra...)
+		// the other format must not accept it (quick: for every T_g, on the honest key and on Y+T_g)
+		if c.Thorough || ta == 0 || ta == tg {
+			checkVerify(w, "torsion/cross-format", other(f), pkStr, pi, al.b, extra...)
+		}
 		if i%37 == 0 {
 			w.Sample(map[string]string{"op": "Verify" + apiFor(f).name, "class": cls, "pk": hexs(pkStr), "pi": hexs(pi), "alpha": al.desc, "tries": fmt.Sprint(tries)})
 		}
